@@ -106,9 +106,16 @@ while done < n and attempts < 6 * n:
     else:
         t0 = time.time()
         env = dict(ENV, VERIF_REPO=WT, VERIF_ESCALATION_BUDGET_S="60")
-        p = subprocess.run(["./check", pid], cwd=ROOT, env=env, stdout=subprocess.PIPE, stderr=subprocess.STDOUT, timeout=3000)
-        o = p.stdout.decode("utf-8", "replace")
-        rec["result"] = "killed" if p.returncode == 1 else ("survived" if p.returncode == 0 else f"rc{p.returncode}")
+        try:
+            p = subprocess.run(["timeout", "-k", "10", "1200", "./check", pid], cwd=ROOT, env=env, stdout=subprocess.PIPE, stderr=subprocess.STDOUT, timeout=1300)
+            o = p.stdout.decode("utf-8", "replace")
+            rc_ = p.returncode
+        except subprocess.TimeoutExpired:
+            o, rc_ = "", 124
+        subprocess.run(["pkill", "-f", f"verif-alt-.*{pid.lower()}"], stderr=subprocess.DEVNULL)
+        # a mutant that makes the real code loop forever hangs the harness: the check would report a broken
+        # correspondence run after its own (long) timeout; counted as killed(hang)
+        rec["result"] = "killed" if rc_ == 1 else ("survived" if rc_ == 0 else ("killed(hang)" if rc_ in (124, 137) else f"rc{rc_}"))
         v = [l for l in o.splitlines() if l.startswith("VIOLATION") or l.startswith("  ")]
         rec["violation"] = " | ".join(v[:2])[:400]
         rec["secs"] = round(time.time() - t0, 1)
